@@ -158,15 +158,15 @@ def r3(model, rep):
     p, o, d = fr("p"), fr("o"), fr("d")
     leaves = sm.summarize(fn, {fn.args.args[0].arg: p, fn.args.args[1].arg: o, fn.args.args[2].arg: d})
     ok = True
-    for alpha, lf, mp, rctx in rows(leaves, Ctx()):
-        pos = alpha.get(("POS", p))
-        if pos is None:
-            raise AnalysisError("_get_eff does not branch on ipwr > 0")
+    from ..guards import f_pos as _fpos
+    want_guard = _fpos(p, Ctx())
+    for alpha, lf, mp, rctx in rows(leaves, Ctx(), extra_atoms=list(atoms_of(want_guard))):
+        pos = ev(want_guard, alpha)
         want = lift(100) * abs_(o / p, rctx) if pos else d
         if lf.kind != "return" or not (to_num(lf.value) == want):
             ok = False
             rep.violation("R3", "components._get_eff", "%s:%d" % (rel, fn.lineno),
-                          "efficiency is %s, expected %s when ipwr%s0" % (show_value(lf.value), show(want), ">" if pos else "<="), "eff " + str(pos))
+                          "efficiency is %s, expected %s when ipwr%s0 (row {%s})" % (show_value(lf.value), show(want), ">" if pos else "<=", show_alpha(alpha)), "eff " + str(pos))
     rep.instance("R3", "components._get_eff", "%s:%d" % (rel, fn.lineno), ok)
     n = 0
     for kind in KINDS:
